@@ -161,6 +161,8 @@ def number_variants(n):
         b"+" + d, b"-" + d, b"0x" + d, d + b"_0", b" " + d, d + b" ", d + b"\n", d + b"\r", "٥".encode("utf-8"), b"",
         b"1e1", d + b"," + d, d + b", " + (b"%d" % (n + 1)), b"0" + d, d + b".0", b"\x0b" + d, d + b"\x0b", d + b";", b"\t" + d,
         d + b"\x00", b"\xa0" + d, d + b"\x85", b"0" * 20 + d,
+        # a control byte hidden in front of an obs-fold: whatever joins the lines must not strip it
+        d + b"\x0b\r\n ", d + b"\x0c\r\n\t", d + b"\r\n \x0b",
     ]
 
 
@@ -175,6 +177,7 @@ def hex_variants(h):
 TERMINATOR_VARIANTS = [b"\n", b"\r", b"\r\r\n", b"\n\r", b"", b"\r\n\r\n", b"\r\n ", b" \r\n", b"\n\n"]
 ODD_BYTES = [b"\x00", b"\x09", b"\x0b", b"\x0c", b"\x7f", b"\x85", b"\xa0", b" ", b"\r", b"\n"]
 TE_VARIANTS = [
+    b"chunked\x0b\r\n ", b"chunked\x0c\r\n\t", b"chunked\r\n \x0b",
     b"chunked ", b"\tchunked", b"chunked\x0b", b"xchunked", b"chunked;q=1", b'"chunked"', b"chunked,", b",chunked", b"chunked, chunked",
     b"CHUNKED", b"chunKed", b"identity", b"chunked\x00", b"chunked\x85", b"\x0bchunked", b"chunked\xa0", b"chunked, identity", b"gzip", b"",
     b"chunked\r", b"chunke", b"chunkedd", b", chunked", b"chunked ,", b" , chunked",
